@@ -343,6 +343,16 @@ def main():
             except Exception:
                 cops = [op]
             violations_from_diff.append((s, ln, cops, impl, model))
+            # for properties whose statement IS agreement with the independent (Lean) codec /
+            # reference, a diverging line is itself the concrete failing input
+            if cfg.get("diff_is_violation"):
+                w = op.split()
+                kind = "independent-reference-mismatch:" + ":".join(w[:2 if len(w) > 1 and w[0] == "enc" else 1])
+                hit = next((k for k in kf if fnmatch.fnmatchcase(kind, k[0])), None)
+                if hit:
+                    known_hits.setdefault(hit[0], (hit[1], dict(kind=kind)))
+                else:
+                    violations.append((kind, f"implementation `{trunc(impl, 300)}` vs independent model `{trunc(model, 300)}`", cops, s))
 
     for k, (desc, v) in sorted(known_hits.items()):
         print(f"KNOWN-FINDING: property={pid} {k} {desc}")
